@@ -327,10 +327,6 @@ Section LinearLaws.
   (* the documented law: q is a homomorphism (S,f) -> (R,g) *)
   Definition Linear (items : list S) (f : S -> S -> S) (g : R -> R -> R) (q : S -> R) :=
     forall a b, In a items -> In b items -> q (f a b) == g (q a) (q b).
-  (* what the code tests: an anti-homomorphism *)
-  Definition LinearSwapped (items : list S) (f : S -> S -> S) (g : R -> R -> R) (q : S -> R) :=
-    forall a b, In a items -> In b items -> q (f a b) == g (q b) (q a).
-
   Definition Bilinear (items_f : list S) (items_h : list T) (f : S -> S -> S) (h : T -> T -> T)
              (g : R -> R -> R) (q : S -> T -> R) :=
     (forall a b c, In a items_f -> In b items_f -> In c items_h ->
@@ -338,21 +334,12 @@ Section LinearLaws.
     (forall a c d, In a items_f -> In c items_h -> In d items_h ->
                    q a (h c d) == g (q a c) (q a d)).
 
-  Theorem linearity_ok_swapped : forall items f g q,
-    linearity eqbR items f g q = Ok <-> LinearSwapped items f g q.
+  Theorem linearity_ok : forall items f g q,
+    linearity eqbR items f g q = Ok <-> Linear items f g q.
   Proof.
-    intros. unfold linearity, LinearSwapped.
-    rewrite (loop2_ok items (fun a b => check (eqbR (q (f a b)) (g (q b) (q a))) ELinearity)).
+    intros. unfold linearity, Linear.
+    rewrite (loop2_ok items (fun a b => check (eqbR (q (f a b)) (g (q a) (q b))) ELinearity)).
     split; intros H a b Ha Hb; specialize (H a b Ha Hb); now apply check_ok in H || apply check_ok.
-  Qed.
-
-  (* the checker is right whenever g commutes on the image of the items *)
-  Theorem linearity_ok_commutative : forall items f g q,
-    (forall a b, In a items -> In b items -> g (q a) (q b) = g (q b) (q a)) ->
-    (linearity eqbR items f g q = Ok <-> Linear items f g q).
-  Proof.
-    intros items f g q Hc. rewrite linearity_ok_swapped. unfold Linear, LinearSwapped.
-    split; intros H a b Ha Hb; specialize (H a b Ha Hb); [rewrite Hc|rewrite <- Hc]; auto.
   Qed.
 
   Theorem linear_b_spec : forall items f g q, linear_b eqbR items f g q = true <-> Linear items f g q.
@@ -396,28 +383,21 @@ Section LinearLaws.
   Qed.
 End LinearLaws.
 
-(* the two directions in which `linearity` is wrong, on a three-element carrier *)
+(* Former finding (fixed in /repo commit 2405c2befba): `linearity` compared q(f a b) with
+   g (q b) (q a).  Witnesses on items [0;1;2], q = id: f = g = left projection was rejected
+   (Err ELinearity) although q is linear; f = left, g = right projection was accepted although
+   q (f 0 1) = 0 <> g (q 0) (q 1) = 1.  Both tables stay in corpus/C09/linearity_swapped.json;
+   the examples below pin the repaired behaviour on them. *)
 Definition lproj (a b : N) : N := a.
 Definition rproj (a b : N) : N := b.
 
-Theorem linearity_rejects_linear :
-  exists (items : list N) f g q,
-    Linear N.eqb items f g q /\ linearity N.eqb items f g q = Err ELinearity.
-Proof.
-  exists [0; 1; 2]%N, lproj, lproj, (fun x => x). split.
-  - intros a b _ _. apply N.eqb_refl.
-  - vm_compute. reflexivity.
-Qed.
+Example linearity_former_false_rejection :
+  linearity N.eqb [0; 1; 2]%N lproj lproj (fun x => x) = Ok.
+Proof. vm_compute. reflexivity. Qed.
 
-Theorem linearity_accepts_nonlinear :
-  exists (items : list N) f g q,
-    ~ Linear N.eqb items f g q /\ linearity N.eqb items f g q = Ok.
-Proof.
-  exists [0; 1; 2]%N, lproj, rproj, (fun x => x). split.
-  - intros H. specialize (H 0%N 1%N). simpl in H.
-    assert (N.eqb 0 1 = true) by (apply H; auto). discriminate.
-  - vm_compute. reflexivity.
-Qed.
+Example linearity_former_false_acceptance :
+  linearity N.eqb [0; 1; 2]%N lproj rproj (fun x => x) = Err ELinearity.
+Proof. vm_compute. reflexivity. Qed.
 
 (* ------------------------------------------------------------------ equality tests that
    reflect Leibniz equality (u8, u32, bool, ...): the laws read with `=` *)
